@@ -11,6 +11,7 @@ def plan(tier):
         Q(P, 1, ['****']),                             # every single token up to 4 bytes: ---x, --=x, -=, -, bundles, =forms
         Q(P, 1, ['--o', '***']), Q(P, 1, ['-q', '***']),   # value-taking option followed by any token (value present / option-like / --)
         Q(P, 1, ['--', '***'], wit=(W_OK,)),           # anything after --
+        Q(P, 1, ['--', 'a', 'b', '***'], wit=(W_ERR,)),   # more positionals than accepted, behind --
         Q(P, 3, ['****'], wit=(W_ERR,)),                # required options, greedy, unlimited positionals: never succeeds with one token
         Q(P, 3, ['-o=*', '--m', '***']),
         Q(P, 2, ['****']),                             # reversible toggle, option with default, no positionals
